@@ -242,6 +242,8 @@ type winSite struct {
 	levels  []winLevel
 	call    *ssa.Call // the per-step validator call
 	argT    *Term     // counter argument over the entry point's values
+	origArg *Term     // the argument as written at the call (before a (value, ok) helper is read through)
+	hsplit  *helperSplit
 	loopLvl int
 	I       *ssa.Phi
 	ind     *Induction
@@ -370,6 +372,12 @@ func analyseWindow(c *Check, w *World, tb *TB, iv *IV, pfx string, entry *ssa.Fu
 			return nil
 		}
 		s.argT = tb.Val(s.call.Call.Args[ctrIdx], last.env)
+		s.origArg = s.argT
+		if hs := splitHelper(w, tb, s.argT); hs != nil {
+			// the counter is computed by a (value, ok) helper or closure: each of its return paths is one way
+			s.hsplit = hs
+			s.argT = hs.okValue
+		}
 		// enclosing loop: exactly one level of the chain has its instruction inside a loop
 		s.loopLvl = -1
 		for k, lv := range s.levels {
@@ -604,7 +612,7 @@ func analyseWindow(c *Check, w *World, tb *TB, iv *IV, pfx string, entry *ssa.Fu
 	okB := wantBase == "" || (res.centre != nil && (res.centre.String() == wantBase || tb.Norm(res.centre).String() == wantBase))
 	c.Decide(okB, pfx+".3", fn, "counter-argument", "every step validates centre + offset, the centre being the caller's counter / time step", "the window is centred on "+clip(cAtom, 160)+", expected "+clip(wantBase, 160), res.firstPos)
 	for _, s := range sites {
-		res.ctrArgs = append(res.ctrArgs, s.argT.String())
+		res.ctrArgs = append(res.ctrArgs, s.origArg.String())
 	}
 	// ---- conditions between loop head and site -------------------------------------------------------------
 	for _, s := range sites {
@@ -641,7 +649,7 @@ func analyseWindow(c *Check, w *World, tb *TB, iv *IV, pfx string, entry *ssa.Fu
 		lv := s.levels[s.loopLvl]
 		var ctrV ssa.Value
 		for _, a := range lv.inst.Common().Args {
-			if tb.Val(a, lv.env).String() == s.argT.String() {
+			if tb.Val(a, lv.env).String() == s.origArg.String() {
 				ctrV = a
 			}
 		}
@@ -692,7 +700,40 @@ func analyseWindow(c *Check, w *World, tb *TB, iv *IV, pfx string, entry *ssa.Fu
 					tooMany = true
 					return
 				}
-				ways = append(ways, way{argT, append(append([]condSrc(nil), common...), conds...)})
+				all := append(append([]condSrc(nil), common...), conds...)
+				if s.hsplit == nil {
+					ways = append(ways, way{argT, all})
+					return
+				}
+				// one way per return path of the helper on which the caller's tests of its ok flag can hold
+				for _, hp := range s.hsplit.paths {
+					feasible := true
+					var cs []condSrc
+					for _, cd := range all {
+						t, pos := cd.t, cd.pos
+						for t.Op == "un" && t.Sym == "!" && len(t.Args) == 1 {
+							t, pos = t.Args[0], !pos
+						}
+						if t.String() == s.hsplit.okTerm {
+							if hp.ok != pos {
+								feasible = false
+							}
+							continue
+						}
+						cs = append(cs, cd)
+					}
+					if !feasible {
+						continue
+					}
+					for _, hc := range hp.conds {
+						cs = append(cs, condSrc{hc.t, hc.pos})
+					}
+					if len(ways) >= 64 {
+						tooMany = true
+						return
+					}
+					ways = append(ways, way{hp.val, cs})
+				}
 				return
 			}
 			if iff, ok := b.Instrs[len(b.Instrs)-1].(*ssa.If); ok && b.Succs[0] != b.Succs[1] {
@@ -715,6 +756,20 @@ func analyseWindow(c *Check, w *World, tb *TB, iv *IV, pfx string, entry *ssa.Fu
 			return nil
 		}
 		for _, wy := range ways {
+			// a way that needs a condition known to be false with the arguments bound (a flag parameter) does not exist
+			dead := false
+			for _, cd := range wy.conds {
+				t, pos := cd.t, cd.pos
+				for t.Op == "un" && t.Sym == "!" && len(t.Args) == 1 {
+					t, pos = t.Args[0], !pos
+				}
+				if t.IsConst() && (t.Sym == "true" || t.Sym == "false") && (t.Sym == "true") != pos {
+					dead = true
+				}
+			}
+			if dead {
+				continue
+			}
 			part := &winPart{argL: (&linMaker{w: w, modular: true}).of(wy.argT)}
 			// every way must be centre ± i like the joined argument
 			if part.argL.coef[cAtom] != 1 || (part.argL.coef[s.iAtom] != 1 && part.argL.coef[s.iAtom] != -1) {
@@ -931,7 +986,16 @@ func classifyWinCond(ex *linMaker, t *Term, pos bool, s *winSite, sAtom, cAtom s
 	if !pos {
 		op = negOp(op)
 	}
-	l, r := ex.of(t.Args[0]), ex.of(t.Args[1])
+	// the signed reading of a counter kept modulo 2^64 compared with zero (int64(centre + uint64(i)) < 0): the same
+	// bits, hence the same test, as the signed step counter int64(centre) + i of the usual form
+	side := func(k int) linForm {
+		a, z := t.Args[k], t.Args[1-k]
+		if a.Op == "conv" && a.Sym == "int64" && len(a.Args) == 1 && cAtom != "" && a.Args[0].ContainsStr(cAtom) && z.IsConst() && z.Sym == "0" {
+			return (&linMaker{w: ex.w, modular: true}).of(a.Args[0])
+		}
+		return ex.of(a)
+	}
+	l, r := side(0), side(1)
 	d := l.add(r, -1) // l - r
 	var out []winCond
 	src := normT(t)
@@ -1194,4 +1258,94 @@ func checkAcceptGuardG(c *Check, w *World, tb *TB, pfx string, entry *ssa.Functi
 	if nTrue == 0 && okAll {
 		c.Bad(pfx+".5", fn, "accept-guard", "the entry point never accepts", w.Pos(entry.Pos()))
 	}
+}
+
+// helperSplit: a counter argument of the form v, ok := helper(…) read through the helper's return paths.
+type helperSplit struct {
+	okTerm  string // the term of the ok flag at the caller: extract(1; <call>)
+	okValue *Term  // the value on the ok paths (they agree modulo 2^64)
+	paths   []helperPath
+}
+
+type helperPath struct {
+	val   *Term
+	ok    bool
+	conds []struct {
+		t   *Term
+		pos bool
+	}
+}
+
+// splitHelper: t = extract(0; call) of a loop-free module helper or closure returning (uint64, bool): its return
+// paths with the call's arguments (and the closure's captures) bound. nil when t is not of that form, when the ok
+// flag is not a constant on some path, or when the values of the ok paths do not agree.
+func splitHelper(w *World, tb *TB, t *Term) *helperSplit {
+	if t.Op != "extract" || t.Sym != "0" || len(t.Args) != 1 {
+		return nil
+	}
+	inner := t.Args[0]
+	var g *ssa.Function
+	var params, free []*Term
+	switch {
+	case inner.Op == "call":
+		cl, ok := inner.Val.(*ssa.Call)
+		if !ok {
+			return nil
+		}
+		g = cl.Call.StaticCallee()
+		params = inner.Args
+	case inner.Op == "calldyn" && len(inner.Args) >= 1 && inner.Args[0].Op == "closure":
+		mc, ok := inner.Args[0].Val.(*ssa.MakeClosure)
+		if !ok {
+			return nil
+		}
+		g, _ = mc.Fn.(*ssa.Function)
+		params, free = inner.Args[1:], inner.Args[0].Args
+	}
+	if g == nil || !w.InModule(g) || g.Blocks == nil || HasLoop(g) || g.Signature.Results().Len() != 2 {
+		return nil
+	}
+	if b, ok := g.Signature.Results().At(1).Type().Underlying().(*types.Basic); !ok || b.Kind() != types.Bool {
+		return nil
+	}
+	paths, err := EnumPaths(g, 64)
+	if err != nil || len(paths) == 0 {
+		return nil
+	}
+	env := &Env{Fn: g, Params: params, Free: free}
+	hs := &helperSplit{okTerm: "extract(1; " + inner.String() + ")"}
+	var okForm *linForm
+	for _, p := range paths {
+		if p.Ret == nil {
+			return nil
+		}
+		hp := helperPath{val: tb.Val(p.Result(0), env)}
+		okT := tb.Val(p.Result(1), env)
+		switch {
+		case okT.IsConst() && okT.Sym == "true":
+			hp.ok = true
+		case okT.IsConst() && okT.Sym == "false":
+		default:
+			return nil
+		}
+		for _, pc := range p.Conds {
+			hp.conds = append(hp.conds, struct {
+				t   *Term
+				pos bool
+			}{tb.Val(pc.Cond, env), pc.Taken})
+		}
+		if hp.ok {
+			lf := (&linMaker{w: w, modular: true}).of(hp.val)
+			if okForm == nil {
+				okForm, hs.okValue = &lf, hp.val
+			} else if !okForm.eq(lf) {
+				return nil
+			}
+		}
+		hs.paths = append(hs.paths, hp)
+	}
+	if hs.okValue == nil {
+		return nil
+	}
+	return hs
 }
